@@ -18,7 +18,9 @@ SPEC = dict(
           "|dpka_max| (hbond_geometric_bound); Float model = real function bit-for-bit on stub atoms. Reported averages: a quantity lying "
           "in [a, b] in every conformation that contains the group (buried fraction in [0, 1], a desolvation term of fixed sign) lies in "
           "[a, b] in the average (average_in_range over the scalar-average model, which C08 ties to the real AVR records); the AVR records "
-          "of multi-conformation runs, protein-sized ones included, are evaluated too.",
+          "of multi-conformation runs, protein-sized ones included, are evaluated too. The parametric kernel theorems are instantiated: "
+          "shipped_wellformed derives their hypotheses for the shipped parameter file (read as reals) from the integer facts decided on "
+          "the regenerated tables.",
     note="Kernels that are inlined in radial_volume_desolvation / backbone_reorganization are tied through stub conformations (the "
          "harness composes the kernel results in the code's order). |f_angle| <= 1 (Cauchy-Schwarz on unit vectors) is used, not proved.",
     technique="Lean 4/Mathlib proof (ordered-field reasoning over R and Q, case analysis of the pair rules) + generated-constant obligations + bitwise Float correspondence",
